@@ -1132,6 +1132,30 @@ impl CompileState<'_> {
             let mut seen_ok_literal = false;
             let mut seen_err_literal = false;
             let mut seen_some_literal = false;
+            // The arm body sees the bound identifier, so an arm that binds
+            // cannot be entered through any other alternative.
+            if values.len() > 1 {
+                if let Some(binding) = values.iter().find(|v| {
+                    matches!(
+                        &v.inner,
+                        ExprKind::Ok(inner) | ExprKind::Err(inner) | ExprKind::Optional(Some(inner))
+                            if matches!(inner.inner, ExprKind::Identifier(_))
+                    )
+                }) {
+                    let literal_of_same_variant = values.iter().any(|v| {
+                        !core::ptr::eq(v, binding)
+                            && core::mem::discriminant(&v.inner) == core::mem::discriminant(&binding.inner)
+                            && !matches!(&v.inner, ExprKind::Optional(None))
+                    });
+                    if !literal_of_same_variant {
+                        return Err(self.err(InvalidExpression(
+                            "a binding pattern cannot be combined with other patterns in one match arm",
+                            binding.clone(),
+                            None,
+                        )));
+                    }
+                }
+            }
             for v in values {
                 let value = &v.inner;
                 let v_span = v.span();
